@@ -140,7 +140,9 @@ pub fn main(args: &[String]) {
                     // only outermost skipped nodes are compared (what is inside moves with them)
                     if items.iter().any(|o2| o2.skip && o2.start <= it.start && it.end <= o2.end && (o2.start, o2.end) != (it.start, it.end)) { continue; }
                     match oitems.iter().find(|x| x.path == it.path) {
-                        Some(oi) => writeln!(out, "NODE {} {} {} skip {} {}", id, it.path, it.kind, hex(slice(&src, it.start, it.end).as_bytes()), hex(slice(&o, oi.start, oi.end).as_bytes())).unwrap(),
+                        // a statement is compared with its leading trivia (the directive comment, blank lines, its indentation); a table field without
+                        Some(oi) => { let (a0, b0) = if it.kind == "stmt" { (it.lead, oi.lead) } else { (it.start, oi.start) };
+                                      writeln!(out, "NODE {} {} {} skip {} {}", id, it.path, it.kind, hex(slice(&src, a0, it.end).as_bytes()), hex(slice(&o, b0, oi.end).as_bytes())).unwrap() }
                         None => writeln!(out, "NODE {} {} {} skip {} MISSING", id, it.path, it.kind, hex(slice(&src, it.start, it.end).as_bytes())).unwrap(),
                     }
                 }
@@ -200,7 +202,20 @@ pub fn main(args: &[String]) {
                                     // binary treats the statement as inside; the statements that contain such a statement change with it
                                     let quirk = |x: &Item| x.fm_end < x.stmt_end && x.fm_end <= b && b < x.stmt_end;
                                     let class = if quirk(it) || stm.iter().any(|x| quirk(x) && x.start >= a && it.start <= x.start && x.end <= it.end) { "outside-endquirk" } else { "outside" };
-                                    let (exp, obs) = (slice(&src, it.start, it.end), slice(&o, oi.start, oi.end));
+                                    // an untouched statement keeps its text with its leading trivia (comments, blank lines, the blanks in front
+                                    // of it): compared from the start of its leading trivia to its last token (what trails it on its line may be
+                                    // followed by the indentation of a formatted statement, which full_moon attributes to the same token)
+                                    // (not when the statement before it in its block is being formatted: the comments of that statement's
+                                    // semicolon may move behind the semicolon, in front of this one)
+                                    let prev_formatted = match it.path.rsplit_once('.') {
+                                        Some((blk, idx)) => {
+                                            let prev = if idx == "last" { stm.iter().filter(|x| x.path.starts_with(&format!("{}.", blk)) && x.path != it.path && x.path.rsplit_once('.').map_or(false, |p| p.0 == blk)).map(|x| *x).last() }
+                                                       else { idx.parse::<usize>().ok().and_then(|i| if i == 0 { None } else { stm.iter().find(|x| x.path == format!("{}.{}", blk, i - 1)).map(|x| *x) }) };
+                                            prev.map_or(false, |p| inside(p))
+                                        }
+                                        None => false,
+                                    };
+                                    let (exp, obs) = if prev_formatted { (slice(&src, it.start, it.end), slice(&o, oi.start, oi.end)) } else { (slice(&src, it.lead, it.end), slice(&o, oi.lead, oi.end)) };
                                     if pos_only { writeln!(out, "POS {} {} {} {} {} {} {} {} {}", rid, it.path, a, b, it.start, it.stmt_end, it.fm_end, class, (exp == obs) as u8).unwrap() }
                                     else { writeln!(out, "NODE {} {} stmt {} {} {}", rid, it.path, class, hex(exp.as_bytes()), hex(obs.as_bytes())).unwrap() }
                                 }
